@@ -1,8 +1,11 @@
 //! One entry point per property.
 
+pub mod c02;
+pub mod c03;
 pub mod c04;
 pub mod c06;
 pub mod c10;
+pub mod c11;
 pub mod c12;
 pub mod c20;
 pub mod histprops;
